@@ -546,6 +546,35 @@ def _bad_preset(rng: random.Random) -> dict:
     return p
 
 
+def _odd_preset(rng: random.Random) -> dict:
+    """A hand-written but valid preset: components may lack 'rules' or 'rules2', or list only some of the rules."""
+    from markdown_it import presets
+    p = copy.deepcopy(rng.choice([presets.commonmark.make(), presets.zero.make(), presets.js_default.make()]))
+    p["options"]["linkify"] = False
+    comps = p.setdefault("components", {})
+    full = presets.commonmark.make()["components"]
+    for comp in ("core", "block", "inline"):
+        c = comps.setdefault(comp, {})
+        r = rng.random()
+        if r < 0.3:
+            c.pop("rules", None)
+        elif r < 0.45:
+            c["rules"] = []
+        elif r < 0.7:
+            c["rules"] = list(full[comp]["rules"])
+    c = comps["inline"]
+    r = rng.random()
+    if r < 0.3:
+        c.pop("rules2", None)
+    elif r < 0.75:
+        keep = ["balance_pairs", "fragments_join"] + rng.sample(["emphasis", "strikethrough"], rng.randint(0, 2))
+        c["rules2"] = [x for x in ["balance_pairs", "strikethrough", "emphasis", "fragments_join"] if x in keep]
+    for comp in ("core", "block", "inline"):
+        if not comps[comp]:
+            comps[comp] = {"rules": list(full[comp]["rules"])}      # an empty component dict is not a useful shape
+    return p
+
+
 def gen_facade(rng: random.Random) -> dict:
     cfg = docgen.config(rng)
     n = rng.choice([2, 4, 6, 9, 14])
@@ -608,6 +637,8 @@ def gen_facade(rng: random.Random) -> dict:
         if r < 0.90:
             if rng.random() < 0.35:
                 return ["configure", _bad_preset(rng), None]
+            if rng.random() < 0.35:
+                return ["configure", _odd_preset(rng), {"linkify": False}, "odd"]
             upd = {"linkify": False}
             if rng.random() < 0.5:
                 upd[rng.choice(["html", "typographer", "breaks", "xhtmlOut"])] = rng.random() < 0.5
@@ -783,7 +814,7 @@ def run_facade(rec: dict, res: RunResult) -> None:
                 _do_replace(md, op, log)
                 registrations.append(op)
             elif kind == "configure":
-                _, preset, upd = op
+                preset, upd = op[1], op[2]
                 if isinstance(preset, str):
                     if preset not in preset_by_name:
                         exp_raise = True
@@ -796,6 +827,16 @@ def run_facade(rec: dict, res: RunResult) -> None:
                                 exp_raise = exp_raise or bad
                     if exp_raise and preset in preset_by_name:
                         unconstrained = True
+                elif len(op) > 3 and op[3] == "odd":
+                    # hand-written, valid: enableOnly per listed non-empty key, nothing else touched
+                    comp = preset.get("components", {})
+                    for w, key in (("core", "rules"), ("block", "rules"), ("inline", "rules"), ("inline2", "rules2")):
+                        lst = comp.get("inline" if w == "inline2" else w, {}).get(key)
+                        if lst:
+                            exp_act[w], _, bad = _predict_many(b_all[w], b_act[w], lst, True, False, only=True)
+                            exp_raise = exp_raise or bad
+                    unconstrained = exp_raise
+                    res.count("configure_with_hand_written_preset")
                 else:
                     exp_raise = True
                     unconstrained = True   # fails half-way through the components: any coherent state
@@ -933,7 +974,7 @@ class C11(Engine):
                   "harness_supplied": ["synthetic rule functions", "pass-through recording wrappers around built-in rules",
                                        "marker plugins (@@ block, @ inline, core, inline2)"],
                   "stub": [], "simulated": ["the history of calls incl. the calls that raise half-way"]}
-    expected_probes = ["caller_emptied_returned_lists", "steps_without_observation", "same_function_registered_under_two_names",
+    expected_probes = ["configure_with_hand_written_preset", "caller_emptied_returned_lists", "steps_without_observation", "same_function_registered_under_two_names",
                        "failed_call_after_compiled_cache", "enableOnly_failed_midway", "duplicate_name_ops",
                        "at_changed_alt", "configure_failed_midway", "facade_missed_names"]
 
